@@ -24,6 +24,7 @@ SEED = int(os.environ.get("VERIF_SEED", "0") or 0)
 NCPU = int(os.environ.get("VERIF_JOBS", "0") or 0) or min(16, os.cpu_count() or 4)
 DEPS = os.path.join(VERIF_DIR, ".deps")
 KNOWN_FINDINGS = os.path.join(VERIF_DIR, "known_findings.json")
+DISTINCT_CAP = 6_000_000  # merged 64-bit case hashes kept by the driver (memory bound)
 GUARD = "SIEVELIB_VERIF"
 
 
@@ -85,6 +86,16 @@ class StepBudgetExceeded(BaseException):
     """BaseException on purpose: sievelib's `except Exception` cannot eat it."""
 
 
+class TimeBudgetExceeded(BaseException):
+    """Raised from a SIGALRM handler: one call burnt more wall-clock than any linear
+    behaviour could (the regex engine polls signals, so catastrophic backtracking inside a
+    single line event is interrupted too)."""
+
+
+def _on_alarm(signum, frame):
+    raise TimeBudgetExceeded("time budget exceeded")
+
+
 class StepMonitor:
     """Counts LINE events inside $VERIF_REPO/sievelib; raises on overrun."""
 
@@ -144,18 +155,35 @@ class StepMonitor:
 STEPS = StepMonitor()
 
 
-def guarded(fn, limit, *a, **kw):
-    """Run fn under the step budget.
+ALARM_SECONDS = float(os.environ.get("VERIF_CALL_SECONDS", "8"))
 
-    Returns (kind, value, steps) with kind in {'ret','exc','hang'}.
+
+def guarded(fn, limit, *a, **kw):
+    """Run fn under the step budget and a per-call wall-clock alarm.
+
+    Returns (kind, value, steps) with kind in {'ret','exc','hang','slow'}.
     For 'exc' value is (type name, str(exc), innermost sievelib frame).
+    'slow' = the alarm fired (never a verdict by itself: callers confirm it).
     """
+    import signal
     STEPS.install()
     STEPS.start(limit)
+    use_alarm = threading_main()
+    if use_alarm:
+        old = signal.signal(signal.SIGALRM, _on_alarm)
+        signal.setitimer(signal.ITIMER_REAL, ALARM_SECONDS)
     try:
-        r = fn(*a, **kw)
+        try:
+            r = fn(*a, **kw)
+        finally:
+            if use_alarm:
+                signal.setitimer(signal.ITIMER_REAL, 0)
+                signal.signal(signal.SIGALRM, old)
         n = STEPS.stop()
         return ("ret", r, n)
+    except TimeBudgetExceeded as e:
+        n = STEPS.stop()
+        return ("slow", "no result after %.0f s" % ALARM_SECONDS, n)
     except StepBudgetExceeded as e:
         n = STEPS.stop()
         return ("hang", str(e), n)
@@ -165,6 +193,11 @@ def guarded(fn, limit, *a, **kw):
     except Exception as e:  # noqa
         n = STEPS.stop()
         return ("exc", (type(e).__name__, str(e)[:200], _inner_frame(e)), n)
+
+
+def threading_main():
+    import threading
+    return threading.current_thread() is threading.main_thread()
 
 
 def _inner_frame(e):
@@ -404,7 +437,10 @@ def drive(pid, tier, replay=None):
         if r is None:
             continue
         evaluations += r["evaluations"]
-        hashes.update(r["hashes"])
+        if len(hashes) < DISTINCT_CAP:
+            hashes.update(r["hashes"])
+        else:
+            overflow += len(r["hashes"])
         overflow += r["hash_overflow"]
         for k, v in r["counters"].items():
             counters[k] = counters.get(k, 0) + v
@@ -461,8 +497,9 @@ def drive(pid, tier, replay=None):
             "evaluations": evaluations,
             "distinct_nontrivial": distinct,
             "distinct_note": ("distinct canonical case keys (64-bit hashes) merged "
-                              "across shards; %d further cases were beyond the "
-                              "per-shard hash cap and are not counted" % overflow),
+                              "across shards; a LOWER BOUND: %d further cases were beyond "
+                              "the per-shard / driver hash caps and are not counted"
+                              % overflow),
             "rule": getattr(mod, "RULE", ""),
             "samples": samples or ["(none)"],
             "exhaustive": bool(getattr(mod, "EXHAUSTIVE", {}).get(tier, False)),
